@@ -89,10 +89,52 @@ type wireRun struct {
 	vf0mac []byte
 	ll     map[string]net.IP // link-local address of ve0 / vf0
 	xid    uint32
+	sent   map[uint32]bool // transaction ids of datagrams sent so far
 }
 
 // exchange injects one frame on link (ve1|vf1) and returns the DHCP frames seen on both links.
 func (w *wireRun) exchange(link string, frame []byte, wait time.Duration) []wireObs {
+	obs := w.exchangeRaw(link, frame, wait)
+	// a reply that carries the transaction id of an EARLIER request is a late reply to that request (the
+	// server was slow, the harness moved on): it must not be attributed to the datagram just sent
+	cur := frameXid(frame)
+	var out []wireObs
+	for _, o := range obs {
+		x := uint32(0)
+		if o.f4 != nil && len(o.f4.Payload) >= 8 {
+			x = uint32(o.f4.Payload[4])<<24 | uint32(o.f4.Payload[5])<<16 | uint32(o.f4.Payload[6])<<8 | uint32(o.f4.Payload[7])
+		} else if o.f6 != nil {
+			if _, inner, err := pkt.Unwrap6(o.f6.Payload); err == nil && len(inner) >= 4 {
+				x = 0x80000000 | uint32(inner[1])<<16 | uint32(inner[2])<<8 | uint32(inner[3])
+			}
+		}
+		if x != cur && w.sent[x] {
+			w.ctx.Count("wire.late_replies_ignored", 1)
+			continue
+		}
+		out = append(out, o)
+	}
+	if w.sent == nil {
+		w.sent = map[uint32]bool{}
+	}
+	w.sent[cur] = true
+	return out
+}
+
+// frameXid extracts the transaction id of the DHCP message in a frame built by the harness (0 if none).
+func frameXid(frame []byte) uint32 {
+	if p, err := pkt.ParseFrame(frame); err == nil && p.IsIPv4UDP && len(p.Payload) >= 8 {
+		return uint32(p.Payload[4])<<24 | uint32(p.Payload[5])<<16 | uint32(p.Payload[6])<<8 | uint32(p.Payload[7])
+	}
+	if p6, ok := pkt.ParseFrame6(frame); ok && p6.IsUDP {
+		if _, inner, err := pkt.Unwrap6(p6.Payload); err == nil && len(inner) >= 4 {
+			return 0x80000000 | uint32(inner[1])<<16 | uint32(inner[2])<<8 | uint32(inner[3])
+		}
+	}
+	return 0
+}
+
+func (w *wireRun) exchangeRaw(link string, frame []byte, wait time.Duration) []wireObs {
 	w.sn.collect(0)
 	if err := w.inj[link].send(frame); err != nil {
 		w.ctx.Inconclusive("wire: cannot inject: %v", err)
@@ -174,12 +216,14 @@ func (wireEngine) Run(ctx *fw.Ctx, cs any) {
 		ctx.Inconclusive("wire: ve0 has no IPv6 link-local address")
 		return
 	}
-	listen4, listen6 := "0.0.0.0", "[::]"
+	// bound: one listener per interface, all sharing ONE plugin chain (one range instance, one lease
+	// database, one prefix pool) - as the configuration says; unbound: one wildcard listener
+	listen4, listen6 := "['0.0.0.0']", "['[::]']"
 	if c.Bound {
-		listen4, listen6 = "%ve0", "[ff02::1:2%ve0]"
+		listen4, listen6 = "['%ve0', '%vf0']", "['[ff02::1:2%ve0]', '[ff02::1:2%vf0]']"
 	}
 	conf := fmt.Sprintf(`server4:
-  listen: '%s'
+  listen: %s
   plugins:
     - server_id: 10.77.0.1
     - sleep: 100us
@@ -188,7 +232,7 @@ func (wireEngine) Run(ctx *fw.Ctx, cs any) {
     - router: 10.77.0.1
     - dns: 10.77.0.2 10.77.0.3
 server6:
-  listen: '%s'
+  listen: %s
   plugins:
     - server_id: LL 00:de:ad:be:ef:00
     - sleep: 100us
@@ -272,10 +316,7 @@ server6:
 			return false
 		}
 	}
-	links := []string{"ve1"}
-	if !c.Bound {
-		links = append(links, "vf1")
-	}
+	links := []string{"ve1", "vf1"}
 	srvMAC := map[string][]byte{"ve1": w.ve0mac, "vf1": w.vf0mac}
 	bcast := []byte{0xff, 0xff, 0xff, 0xff, 0xff, 0xff}
 	lease := model.NewLease4(model.IPU32(net.IPv4(10, 77, 0, 100)), model.IPU32(net.IPv4(10, 77, 0, 180)))
@@ -344,7 +385,9 @@ server6:
 				if rp != nil {
 					offered = net.IP(rp.Yi[:])
 					if sig, msg := lease.Judge(clientKey(mac), true, offered); sig != "" {
-						ctx.Viol("C16", "wire:lease:"+sig, "%s: %s", w.conf, msg)
+						for _, pr := range []string{"C16", "C02", "C13"} {
+							ctx.Viol(pr, "wire:lease:"+sig, "%s (all listeners share one plugin chain): %s", w.conf, msg)
+						}
 					}
 				}
 			}
@@ -394,7 +437,9 @@ server6:
 				}
 				if rp != nil {
 					if sig, msg := lease.Judge(clientKey(mac2), true, net.IP(rp.Yi[:])); sig != "" {
-						ctx.Viol("C16", "wire:lease:"+sig, "%s: %s", w.conf, msg)
+						for _, pr := range []string{"C16", "C02", "C13"} {
+							ctx.Viol(pr, "wire:lease:"+sig, "%s (all listeners share one plugin chain): %s", w.conf, msg)
+						}
 					}
 				}
 			}
@@ -560,7 +605,8 @@ server6:
 	}
 	ctx.Count("wire.exchanges", int64(nexch))
 	ctx.Count("wire.servers", 1)
-	for _, pr := range []string{"C01", "C11", "C12", "C15", "C16"} {
+	for _, pr := range []string{"C01", "C02", "C11", "C12", "C13", "C15", "C16"} {
+		ctx.Eval(pr, int64(nexch))
 		ctx.Nontrivial(pr, fmt.Sprintf("wire/%d/%v", c.Seed, c.Bound))
 		if ctx.WantSample(pr) {
 			ctx.Sample(pr, map[string]any{"engine": "wire", "server": w.conf, "exchanges": nexch, "leases": len(lease.Bind)})
